@@ -144,7 +144,10 @@ def _get_reference_residue(residue, force_field):
 
     if 'modification' in residue:
         modifications = residue['modification']
-        for mod_name in modifications:
+        # The same modification can be requested more than once for a residue
+        # (a general request and one that names the residue), it is patched
+        # in once.
+        for mod_name in dict.fromkeys(modifications):
             LOGGER.info('Applying modification {} to residue {}-{}{}',
                         mod_name, residue['chain'], resname, residue['resid'])
             if mod_name != 'none':
